@@ -1013,6 +1013,143 @@ fn harden(rng: &mut Rng, thorough: bool, emit: &mut dyn FnMut(String)) {
     }
     threshold_scales(rng, thorough, emit);
     mixed_extremes(rng, thorough, emit);
+    block_boundaries(rng, thorough, emit);
+    resonant(rng, thorough, emit);
+}
+
+/// BLOCK BOUNDARIES (sixth seeded round, category O): a blocked / panelled / unrolled factorisation, pivot search, row
+/// exchange, permuted right-hand side, substitution or column store changes behaviour exactly when the order passes 16, 32,
+/// 64 (128 in the thorough tier): every order blk-1, blk, blk+1, blk+2, 2 blk+1 with non-constant, NON-symmetric data:
+///  * exact bidiagonal products `P L0 U0` (unit lower bidiagonal with multipliers +-1, +-1/2, upper bidiagonal with dyadic
+///    diagonal and a smaller super-diagonal: every elimination step is exact, the exact inverse is dyadic and moderate),
+///    rows in order and shuffled (an exchange at nearly every step, across blocks);
+///  * small-integer row-dominant matrices through an integer element type, and the same with shuffled rows scaled by powers
+///    of two;
+///  * one well-conditioned real dense matrix `Q1 D Q2`;
+///  * singular ones the statement names, with the defect AT the boundary: a zero row / zero column at index blk-1, blk, n-1
+///    and a row repeated across the boundary (must be refused).
+/// Judged exactly by `check_products` (both products, `Big`) and `expectation`; the plug-in judges the products (clause 4)
+/// at these orders and leaves the exact-inverse clauses to orders <= 12.
+fn block_boundaries(rng: &mut Rng, thorough: bool, emit: &mut dyn FnMut(String)) {
+    const ITYPES: [&str; 4] = ["i32", "f64", "i16", "f32"];
+    for &blk in &[16usize, 32, 64, 128] {
+        for n in [blk - 1, blk, blk + 1, blk + 2, 2 * blk + 1] {
+            if n > 130 || (n > 66 && !thorough) {
+                continue;
+            }
+            // exact bidiagonal product
+            let mut l0 = vec![0.0; n * n];
+            let mut u0 = vec![0.0; n * n];
+            for i in 0..n {
+                l0[i * n + i] = 1.0;
+                if i > 0 {
+                    l0[i * n + i - 1] = *rng.pick(&[1.0, -1.0, 0.5, -0.5, 1.0, -1.0]);
+                }
+                let d = *rng.pick(&[1.0, 2.0, 4.0, 1.5, 3.0]) * sgn(rng);
+                u0[i * n + i] = d;
+                if i + 1 < n {
+                    u0[i * n + i + 1] = *rng.pick(&[0.0, 0.5, -0.5, 1.0, -1.0, 0.25]) * if d.abs() >= 2.0 { 2.0 } else { 1.0 };
+                }
+            }
+            u0[0] = 3.0;
+            let a = matmul(n, &l0, &u0);
+            emit_f(emit, n, n, &a);
+            let mut b = a.clone();
+            shuffle_rows(rng, n, &mut b);
+            emit_f(emit, n + 1, n, &b);
+            // small-integer row-dominant, non-symmetric
+            let mut v = int_mat(rng, n, -2, 2);
+            for i in 0..n {
+                let off: f64 = (0..n).filter(|&j| j != i).map(|j| v[i * n + j].abs()).sum();
+                v[i * n + i] = (off + 1.0 + rng.below(3) as f64) * sgn(rng);
+            }
+            emit_inv(emit, ITYPES[n % 4], n, n, &v);
+            let mut w = v.clone();
+            shuffle_rows(rng, n, &mut w);
+            for i in 0..n {
+                let s = p2(rng.range(-6, 6));
+                for j in 0..n {
+                    w[i * n + j] *= s;
+                }
+            }
+            emit_inv(emit, "f64", n, n, &w);
+            if n % 2 == 1 || thorough {
+                let c = conditioned(rng, n, [3.0, 30.0, 300.0][n % 3]);
+                emit_inv(emit, "f64", n, n, &c);
+            }
+            // the singular matrices of the statement, with the defect at the boundary
+            for (t, z) in [(blk - 1).min(n - 2), blk.min(n - 1), n - 1].into_iter().enumerate() {
+                let mut s = if t == 1 { b.clone() } else { v.clone() };
+                match (n + t) % 3 {
+                    0 => (0..n).for_each(|j| s[z * n + j] = 0.0),
+                    1 => (0..n).for_each(|i| s[i * n + z] = 0.0),
+                    _ => {
+                        let src = if z == 0 { n - 1 } else { rng.below(z as u64) as usize };
+                        for j in 0..n {
+                            s[z * n + j] = s[src * n + j];
+                        }
+                    }
+                }
+                emit_inv(emit, "f64", n, n, &s);
+            }
+        }
+    }
+}
+
+/// RESONANT / EXACT-RELATION DATA (sixth seeded round, category P): A = (P) L0 U0 with multipliers exactly +-1, +-1/2, 0 and
+/// exact zeros in U0, so that every update a_ij - l_ik u_kj is exact and many cancel to exactly 0 (also on the diagonal: an
+/// exactly vanishing pivot - refused); column-maximum TIES (|l| = 1) at every step; a last pivot exactly equal to EPSILON
+/// (the pivot test is `<`), one ulp below / above it; substitution sums that cancel to exactly 0 or 1; and each of these
+/// relations missed by one ulp, 2^-50, 2^-40, 2^-30 relative in one entry; whole matrix scaled by a power of two.
+fn resonant(rng: &mut Rng, thorough: bool, emit: &mut dyn FnMut(String)) {
+    let reps = if thorough { 10 } else { 1 };
+    for k in 0..400 * reps {
+        let n = rng.range(2, 8) as usize;
+        let mut l0 = vec![0.0; n * n];
+        let mut u0 = vec![0.0; n * n];
+        for i in 0..n {
+            for j in 0..n {
+                if i == j {
+                    l0[i * n + j] = 1.0;
+                    u0[i * n + j] = *rng.pick(&[-4.0, -2.0, -1.0, 1.0, 2.0, 4.0]);
+                } else if i > j {
+                    l0[i * n + j] = *rng.pick(&[-1.0, 1.0, 0.0, -1.0, 1.0, 0.5, -0.5]);
+                } else {
+                    u0[i * n + j] = if rng.chance(1, 3) { 0.0 } else { rng.range(-3, 3) as f64 };
+                }
+            }
+        }
+        let singular = k % 6 == 5;
+        if singular {
+            let z = if rng.chance(1, 2) { n - 1 } else { rng.below(n as u64) as usize };
+            u0[z * n + z] = 0.0;
+        }
+        if k % 7 == 3 {
+            // last pivot exactly EPSILON, or one ulp off
+            u0[n * n - 1] = f64::EPSILON * *rng.pick(&[1.0, 1.0 + f64::EPSILON, 1.0 - f64::EPSILON / 2.0, -1.0]);
+        }
+        let mut v = matmul(n, &l0, &u0);
+        if k % 2 == 1 {
+            shuffle_rows(rng, n, &mut v);
+        }
+        if k % 5 == 1 && !singular {
+            let t = rng.below((n * n) as u64) as usize;
+            let d = *rng.pick(&[f64::EPSILON, -f64::EPSILON / 2.0, p2(-50), -p2(-40), p2(-40), p2(-30), -p2(-45)]);
+            v[t] = if v[t] == 0.0 { d } else { v[t] * (1.0 + d) };
+        }
+        if k % 5 == 3 {
+            let s = p2(rng.range(-40, 40));
+            for x in v.iter_mut() {
+                *x *= s;
+            }
+        }
+        let integral = v.iter().all(|x| x.fract() == 0.0 && x.abs() <= 100.0);
+        if integral && k % 3 == 0 {
+            emit_inv(emit, int_type(&v, k), n, n, &v);
+        } else {
+            emit_f(emit, k, n, &v);
+        }
+    }
 }
 
 /// MIXED EXTREMES INSIDE ONE OBJECT (fourth seeded round): entries near the bottom of the range (subnormal, down to a
